@@ -13,7 +13,10 @@ SHARD = 120
 RULE = ("every typed conversion path of length 1..3 over the five containers (nested / 3-D / "
         "multi-index / long / 2-D; 108 skeletons) instantiated with a random shape, a single-instance "
         "shape and a single-column shape (n<=3, c<=3, T in 2..4; thorough: every shape <= 3x3x4), "
-        "distinct half-integer values, str names from a pool with unsorted / prefix / non-ASCII / "
+        "distinct half-integer values, nested start frames whose cells are float64 throughout (half "
+        "of them) or int64 / float64 per cell (integer first cell, integer first variable, integer "
+        "first instance, all integer, float first, random; float cells then hold proper halves), "
+        "str names from a pool with unsorted / prefix / non-ASCII / "
         "empty names and the labels the long table uses itself (index, time_index, column, value, "
         "case_id, ...) or int names, Series- or ndarray-valued cells, random optional arguments "
         "(column_names, cells_as_numpy - also out of a 2-D table -, return_numpy, index level "
@@ -146,6 +149,42 @@ def _lab(case):
     return case.get("labels") or list(range(case["n"]))
 
 
+def _dtypes(rng, n, c, mode=None):
+    """storage dtype of every cell of a nested start frame: None = float64 everywhere (the usual
+    case); else an n x c grid of "f" (float64) / "i" (int64).  The conversions must not care: a
+    cell of integer dtype holds the same VALUES as the float cell with the same numbers."""
+    mode = mode or rng.choice(["float"] * 8 + ["first-int", "first-int", "col0-int", "col0-int",
+                                               "row0-int", "random", "all-int", "first-float"])
+    if mode == "float":
+        return None
+    if mode == "all-int":
+        return [["i"] * c for _ in range(n)]
+    if mode == "col0-int":          # an integer-valued first variable beside real-valued ones
+        g = [["i"] + ["f"] * (c - 1) for _ in range(n)]
+    elif mode == "row0-int":        # the first instance integer typed, the later ones float
+        g = [["i"] * c] + [["f"] * c for _ in range(n - 1)]
+    elif mode == "first-float":     # the wider dtype first, narrower ones later
+        g = [[rng.choice("if") for _ in range(c)] for _ in range(n)]
+        g[0][0] = "f"
+    else:                           # first-int / random
+        g = [[rng.choice("if") for _ in range(c)] for _ in range(n)]
+        if mode == "first-int":
+            g[0][0] = "i"
+    return g
+
+
+def _apply_dtypes(case, dt):
+    """store the grid and make the values fit it (a stored k stands for the value k/2): k -> 2k,
+    a whole number, in "i" cells; k -> 2k+1, always a proper half, in "f" cells - so a conversion
+    that squeezes a float cell into an integer container is seen; all values stay distinct"""
+    if dt is None:
+        return case
+    case["dt"] = dt
+    case["data"] = [[[2 * v if dt[i][j] == "i" else 2 * v + 1 for v in s]
+                     for j, s in enumerate(inst)] for i, inst in enumerate(case["data"])]
+    return case
+
+
 def _mk_case(rng, start, skel, n, c, T, cx=None):
     vals = rng.sample(range(-30, 170), n * c * T)
     data = [[[vals[(i * c + j) * T + t] for t in range(T)] for j in range(c)] for i in range(n)]
@@ -154,6 +193,7 @@ def _mk_case(rng, start, skel, n, c, T, cx=None):
         case["names"] = _names(rng, c)
     if start == "N":
         case["cells"] = rng.choice(["S", "S", "A"])
+        _apply_dtypes(case, _dtypes(rng, n, c))
     if start == "M":
         case["levels"] = rng.choice([["instances", "timepoints"], ["inst", "tp"]])
     if start == "L":
@@ -236,6 +276,23 @@ def gen_cases(rng, tier):
         if len(cs["path"]) == 2:
             cs["path"][1]["cn"] = None
         cases.append(cs)
+    # cells that do not share one dtype, the FIRST cell holding the narrower one: an integer first
+    # variable beside real-valued ones, and a univariate panel whose first series is integer typed
+    for cells in ("S", "A"):
+        for mode in ("col0-int", "row0-int"):
+            for skel, np_ in ((["N>T"], False), (["N>T"], True), (["N>T", "T>N"], True),
+                              (["N>A", "A>T"], None), (["N>A"], None), (["N>M", "M>N"], None)):
+                n, c = (rng.randint(1, 3), rng.randint(2, 3)) if mode == "col0-int" else \
+                    (rng.randint(2, 3), rng.randint(1, 2))
+                cs = _mk_case(rng, "N", skel, n, c, rng.randint(2, 3))
+                cs["cells"] = cells
+                cs["data"] = [[[v // 2 for v in s_] for s_ in inst] for inst in cs["data"]] \
+                    if cs.get("dt") else cs["data"]
+                cs.pop("dt", None)
+                _apply_dtypes(cs, _dtypes(rng, n, c, mode))
+                if np_ is not None:
+                    cs["path"][0]["np"] = np_
+                cases.append(cs)
     # cells_as_numpy=True out of a 2-D table
     for _ in range(3):
         n, T = rng.randint(1, 3), rng.randint(2, 4)
@@ -291,7 +348,15 @@ def _build_start(case):
         return arr
     if st == "N":
         mk = (lambda v: np.array(v)) if case["cells"] == "A" else (lambda v: pd.Series(v))
-        cols = [pd.Series([mk(arr[i, j, :].copy()) for i in range(n)], dtype=object)
+        dt = case.get("dt")
+
+        def cell(i, j):
+            if dt is not None and dt[i][j] == "i":
+                v = np.array([k // 2 for k in data[i][j]], dtype="int64")
+                assert [2 * int(x) for x in v] == list(data[i][j]), "harness error: int cell"
+                return v
+            return arr[i, j, :].copy()
+        cols = [pd.Series([mk(cell(i, j)) for i in range(n)], dtype=object)
                 for j in range(c)]
         df = pd.concat(cols, axis=1)
         df.columns = case["names"]
@@ -703,6 +768,8 @@ def _trim(case, n, c, T):
         d["names"] = d["names"][:c]
     if d.get("labels"):
         d["labels"] = d["labels"][:n]
+    if d.get("dt"):
+        d["dt"] = [r[:c] for r in d["dt"][:n]]
     d["path"] = [dict(e, cn=e["cn"][:c]) if e.get("cn") else dict(e) for e in case["path"]]
     return d
 
@@ -727,15 +794,20 @@ def shrink(case):
         d = dict(case, data=case["data"][1:])        # drop the FIRST instance
         if d.get("labels"):
             d["labels"] = d["labels"][1:]
+        if d.get("dt"):
+            d["dt"] = d["dt"][1:]
         yield _trim(d, n - 1, c, T)
     if case.get("labels"):
         yield {k: v for k, v in case.items() if k != "labels"}
+    if case.get("dt"):              # the same values in float64 cells throughout
+        yield {k: v for k, v in case.items() if k != "dt"}
     if c > 1:
         yield _trim(case, n, c - 1, T)
         if "names" in case:         # also try dropping the FIRST column (keeps a special last name)
-            d = _trim(dict(case, data=[inst[1:] for inst in case["data"]],
-                           names=case["names"][1:]), n, c - 1, T)
-            yield d
+            d = dict(case, data=[inst[1:] for inst in case["data"]], names=case["names"][1:])
+            if d.get("dt"):
+                d["dt"] = [r[1:] for r in d["dt"]]
+            yield _trim(d, n, c - 1, T)
     if T > 2:
         yield _trim(case, n, c, T - 1)
     if case.get("shuffle"):
@@ -912,6 +984,12 @@ def distribution(cases, results):
                 d["cells:ndarray"] += 1
             if c.get("shuffle"):
                 d["long:shuffled"] += 1
+            dt = c.get("dt")
+            if c["start"] == "N":
+                kinds = set(x for r in dt for x in r) if dt else {"f"}
+                d["cell-dtypes:%s" % ("float" if kinds == {"f"} else "int" if kinds == {"i"}
+                                      else "mixed-int-first" if dt[0][0] == "i"
+                                      else "mixed-float-first")] += 1
             lab = c.get("labels")
             d["instance-labels:%s" % (
                 "default" if not lab else "str" if isinstance(lab[0], str)
